@@ -319,7 +319,8 @@ class RefServer:
             self.last_mux_expected = st["mux"]
             if not ab:
                 probs.append(("not-refused", f"final segment of a download that must be refused (0x{refusal:08X}) answered {r.hex()}"))
-            elif r[1:4] != st["mux"]:
+            elif r[1:4] != st["mux"] and not st["zombie"]:
+                # (a server that dropped the transfer after an abort / malformed frame no longer knows its multiplexer)
                 probs.append(("abort-mux", f"abort for {r[1:4].hex()} instead of {st['mux'].hex()}"))
             self.st = None
             return
